@@ -402,5 +402,74 @@ def run1 (s : Store S.Val) : List (Cmd S) → Store S.Val × List Reply
 
 end execN
 
+/-! ## node-global state that is not the keyspace: the script cache
+
+  Anchors: /repo/src/redis/executor/script_ops.rs (`cache_script_internal`, `get_script_internal`,
+  `has_script_internal`, `flush_scripts_internal`: all go to the SHARED cache
+  (`shared_script_cache`, one `Arc` handed to every shard by `ShardedActorState`) when there is one),
+  `execute_lua_script` (EVAL caches its script through `cache_script_internal`),
+  /repo/src/production/sharded_actor.rs (`SCRIPT LOAD / EXISTS / FLUSH` have no key → shard 0;
+  `EVAL / EVALSHA` → the shard of `KEYS[1]`).
+
+  `shared = true` is the code.  `shared = false` is a per-shard cache (seed
+  C03-eval-caches-script-per-shard: lookups try the executor's private cache first, EVAL caches
+  into the private cache, SCRIPT LOAD publishes to the shared one, SCRIPT FLUSH clears shard 0's
+  private cache and the shared one).  Scripts are identified by a number (their SHA1); every
+  script of the model reads its key (`getOp`). -/
+
+inductive SCmd
+  | load (i : Nat)
+  | exists (i : Nat)
+  | flush
+  | eval (i : Nat) (k : Key)
+  | evalsha (i : Nat) (k : Key)
+  deriving DecidableEq, Repr
+
+/-- error class of `NOSCRIPT No matching script` -/
+def errNoScript : Nat := 5
+
+structure GState (ν : Type) where
+  /-- the cache every shard shares -/
+  cache : NSet
+  /-- the executors' private caches (unused by the code: `shared = true`) -/
+  priv : List NSet
+  st : Shards ν
+
+def privOf {ν : Type} (g : GState ν) (i : Nat) : NSet := g.priv.getD i []
+
+section scripts
+variable {S : Sig} (E : Exec S)
+
+def execS (getOp : S.Op) (R : Routes) (shared : Bool) (g : GState S.Val) : SCmd → GState S.Val × Reply
+  | .load i => ({ g with cache := NSet.insert i g.cache }, .one .ok)
+  | .exists i =>
+    -- key-less → shard 0
+    (g, .one (.int (if g.cache.contains i || (!shared && (privOf g 0).contains i) then 1 else 0)))
+  | .flush =>
+    ({ g with cache := [], priv := if shared then g.priv else g.priv.set 0 [] }, .one .ok)
+  | .eval i k =>
+    let h := R.bytes k
+    let g1 : GState S.Val :=
+      if shared then { g with cache := NSet.insert i g.cache }
+      else { g with priv := g.priv.set h (NSet.insert i (privOf g h)) }
+    let r := execN E R true g1.st (.single k getOp)
+    ({ g1 with st := r.1 }, r.2)
+  | .evalsha i k =>
+    let h := R.bytes k
+    if g.cache.contains i || (!shared && (privOf g h).contains i) then
+      let r := execN E R true g.st (.single k getOp)
+      ({ g with st := r.1 }, r.2)
+    else (g, .one (.err errNoScript))
+
+def ginit (ν : Type) (n : Nat) : GState ν := { cache := [], priv := List.replicate n [], st := init ν n }
+
+def runS (getOp : S.Op) (R : Routes) (shared : Bool) (g : GState S.Val) : List SCmd → List Reply
+  | [] => []
+  | c :: cs =>
+    let r := execS E getOp R shared g c
+    r.2 :: runS getOp R shared r.1 cs
+
+end scripts
+
 end Shards
 end RedisVerif
